@@ -680,6 +680,14 @@ def run(prog, rep, tier):
     if nh < 4:
         raise CheckerError("R13.8: only %d highlight loops recognised (4 on the pinned tree)" % nh)
 
+    # ------------------------------------------------------------ R13.12 decorated printers write out everything they batch
+    # Every (colour, file, date) variant batches its fields in the printer's private buffer; a variant
+    # that reports Ok with bytes left behind loses the tail of its output (and delays the rest), so
+    # the decorated output minus the decoration is no longer the undecorated output.  Same analysis as C01 R1.7.
+    import printflush as _pf
+    R1312 = rep.rule("R13.12", "every printer variant returns Ok only with its private buffer written out (C01 R1.7 analysis)")
+    _pf.check(prog, rep, R1312, floor=24)
+
     return rep.finish(
         "Static necessary-condition check of the decoration path: for all 8 flag combinations of all 4 dispatchers the selected variant writes, "
         "per printed line, the file field then the date field before any message bytes exactly when the flags say so (must-pass-through on the "
